@@ -713,6 +713,7 @@ class Remoter(tyming.Tymee):
             if ex.args[0] in (errno.EAGAIN, errno.EWOULDBLOCK):
                 return None  # keep trying
             elif ex.args[0] in (errno.ECONNRESET,
+                                errno.EPIPE,
                                 errno.ENETRESET,
                                 errno.ENETUNREACH,
                                 errno.EHOSTUNREACH,
@@ -782,6 +783,7 @@ class Remoter(tyming.Tymee):
             if ex.args[0] in (errno.EAGAIN, errno.EWOULDBLOCK):
                 count = 0  # blocked try again
             elif ex.args[0] in (errno.ECONNRESET,
+                                errno.EPIPE,
                                 errno.ENETRESET,
                                 errno.ENETUNREACH,
                                 errno.EHOSTUNREACH,
@@ -947,6 +949,7 @@ class RemoterTls(Remoter):
             if  ex.args[0] in (ssl.SSL_ERROR_WANT_READ, ssl.SSL_ERROR_WANT_WRITE):
                 return None  # blocked waiting for data
             elif ex.args[0] in (errno.ECONNRESET,
+                                errno.EPIPE,
                                 errno.ENETRESET,
                                 errno.ENETUNREACH,
                                 errno.EHOSTUNREACH,
@@ -986,6 +989,7 @@ class RemoterTls(Remoter):
             if ex.args[0] in (ssl.SSL_ERROR_WANT_READ, ssl.SSL_ERROR_WANT_WRITE):
                 result = 0  # blocked try again
             elif ex.args[0] in (errno.ECONNRESET,
+                                errno.EPIPE,
                                 errno.ENETRESET,
                                 errno.ENETUNREACH,
                                 errno.EHOSTUNREACH,
